@@ -723,6 +723,7 @@ def life_check(run, cfgs):
     run.traces += len(cases)
     for k in (len(insts) // 3, 2 * len(insts) // 3):
         run.sample({"history": life_text(insts[k]), "expected": [h["exp"] for h in insts[k]["hist"] if h["op"] in ("authorize", "query", "save")]})
+    return insts
 
 
 def replay_life(run, body):
@@ -737,6 +738,19 @@ def replay_life(run, body):
 
 
 REPLAYERS["life"] = replay_life
+
+
+def replay_polcorrupt(run, body):
+    driver = core.build_driver(run.work)
+    c = dict(body["case"])
+    o = core.run_driver(driver, "polcorrupt", [c], nproc=1)[str(c["id"])]
+    run.count("replay")
+    run.count("replay2")
+    if o.get("crash") or o.get("panic") or (o.get("must") == "error" and o.get("loaded")):
+        run.report(body["sig"], c, "polcorrupt", "replayed: " + json.dumps(o)[:300])
+
+
+REPLAYERS["polcorrupt"] = replay_polcorrupt
 
 
 @check("C13")
@@ -763,7 +777,35 @@ def c18(run):
                 "through bytes; constants embedded in every term type so the snapshot carries all term kinds and fresh symbols).")
     run.assumptions = AUTHZ_ASSUME
     t = "thorough" if run.tier == "thorough" else "quick"
-    life_check(run, [("Lifecycle_snapshot_" + t, "L1 SnapshotEquiv / SaveRefusedIffEvaluated + export", {})])
+    insts = life_check(run, [("Lifecycle_snapshot_" + t, "L1 SnapshotEquiv / SaveRefusedIffEvaluated + export", {})])
+    # malformed snapshots: seeded byte corruption of real snapshots and hand-encoded adversarial AuthorizerPolicies messages
+    driver = core.build_driver(run.work)
+    contents = [h["arg"] for c in insts for h in c["hist"] if h["op"] == "add"]
+    cases = []
+    knobs = ["", "version-absent", "version-0", "version-4", "policy-kind-99", "policy-no-kind", "fact-index-2^63", "check-empty-op", "rule-set-bytes"]
+    for i in range(2000 if run.tier == "quick" else 60000):
+        cases.append({"id": "p%d" % i, "emb": emb_of(run, i), "az": contents[i % len(contents)], "knob": knobs[i % len(knobs)] if i < 40 * len(knobs) else "",
+                      "corrupt": 0 if i < 40 * len(knobs) else run.seed * 104729 + i})
+    res = core.run_driver(driver, "polcorrupt", cases, per_case_timeout=60)
+    for c in cases:
+        o = res[c["id"]]
+        run.count(("snapshot", c["knob"], c["corrupt"] != 0, c["id"] if c["corrupt"] else json.dumps(c["az"])[:80]))
+        bad = []
+        if o.get("crash"):
+            bad.append("process died: " + o.get("stderr", "")[-300:])
+        elif "panic" not in o:
+            raise Infra("polcorrupt driver: " + json.dumps(o)[:300])
+        else:
+            if o["panic"]:
+                bad.append("LoadPolicies / evaluation of a loaded snapshot panics: " + o["panic"][:200])
+            if o.get("must") == "error" and o.get("loaded"):
+                bad.append("a malformed snapshot (%s) is loaded without error" % c["knob"])
+        if bad and len(run.violations) < 20:
+            rc = confirm_case(driver, "polcorrupt", c, o, ("panic", "loaded"))
+            run.report({"what": "panic" if "panic" in bad[0] or "died" in bad[0] else "accepted", "knob": c["knob"]}, c, "polcorrupt",
+                       "snapshot %s%s: %s" % (c["knob"] or "(valid)", " + byte corruption #%d" % c["corrupt"] if c["corrupt"] else "", "; ".join(bad)),
+                       (lambda rc=rc: rc is not None))
+    run.traces += len(cases)
 
 
 # =============================================================== C11 bounded evaluation / goroutines
